@@ -277,6 +277,10 @@ def rules(ctx):
     # after its cleaning the sampling-based personalisation writes into a clone only (same rule as C13.R3b)
     from .c13 import r3b_after_cleaning
     r13_fresh_samplers_every_run(ctx)
+    # "position-indexed random draws": the per-subject working states (whose preparation draws the subject's starting point) are created in the
+    # order of the cohort, not in an order computed from the subjects' data (same rule as C17.R1)
+    from .c17 import r1_order
+    r1_order(ctx, rid="C07.R14", title="per-subject states are prepared, and results collected, in the order of the cohort (a subject's random start does not depend on the others' data)")
     r3b_after_cleaning(ctx, state_writes(ctx), rid="C07.R12", why="the model keeps that cohort's data and estimates: the next personalisation on the same model starts every subject from "
                        "another individual's values, so a subject's result depends on the data of others")
     ctx.trust("joblib.Parallel preserves the order of its generator and runs each call on the arguments given")
